@@ -247,6 +247,17 @@ class Fn:
     def __repr__(self):
         return "Fn(%s)" % self.path
 
+    def promoted_fns(self):
+        """promoted constant bodies wrapped as Fn objects (path: <fn>::{promoted#i})"""
+        out = []
+        for i, pb in enumerate(self.promoted):
+            js = dict(pb)
+            js["path"] = "%s::{promoted#%d}" % (self.path, i)
+            js["span"] = self.span
+            js.setdefault("promoted", [])
+            out.append(Fn(js, self.crate))
+        return out
+
     @property
     def file(self):
         return self.span["file"]
@@ -526,7 +537,12 @@ class Fn:
             elif k == "downcast":
                 s = "(%s as %s)" % (s, e["variant"])
             elif k == "index":
-                s = "%s[_%d]" % (s, e["local"])
+                iv = self.value_of_local(e["local"])
+                cv = const_val(iv["const"]) if iv.get("k") == "const" else None
+                if cv is not None:
+                    s = "%s[%s]" % (s, cv)
+                else:
+                    s = "%s[_%d]" % (s, e["local"])
             elif k == "constindex":
                 s = "%s[%s%d]" % (s, "-" if e["from_end"] else "", e["offset"])
             else:
